@@ -486,19 +486,32 @@ def cex_search(spec, tier, variant, target, harness_text, root, workdir, unwind,
                 break
     if chosen is None:
         raise NoWitness('bounded search (unwind %d, capacity as in the %s tier) found no concrete execution failing this obligation' % (unwind, tier))
-    data = []
+    recs = {}
+    call_no, it, inside = -1, -1, False
     for st in chosen['trace']:
-        if st.get('stepType') != 'assignment':
-            continue
-        lhs = st.get('lhs', '')
-        if lhs == 'vf_in_byte' and not st.get('hidden') and st.get('sourceLocation', {}).get('function') == 'vf_input':
+        ty = st.get('stepType')
+        fn = st.get('function')
+        fid = fn.get('identifier') if isinstance(fn, dict) else fn
+        if ty == 'function-call' and fid == 'vf_input':
+            call_no += 1
+            it, inside = -1, True
+        elif ty == 'function-return' and fid == 'vf_input':
+            inside = False
+        elif inside and ty == 'loop-head':
+            it += 1
+        elif inside and ty == 'assignment' and not st.get('hidden') and st.get('lhs') == 'vf_in_byte' and it >= 0:
             v = st.get('value', {})
             try:
-                data.append(int(v.get('data')) & 0xff)
+                x = int(v.get('data'))
             except Exception:
-                data.append(int(v.get('binary', '0'), 2) & 0xff)
-    if not data:
+                try:
+                    x = int(v.get('binary', '0'), 2)
+                except Exception:
+                    continue
+            recs[(call_no, it)] = (call_no << 24) | (it << 8) | (x & 0xff)
+    if not recs:
         raise NoWitness('trace carries no input bytes')
+    data = [recs[k] for k in sorted(recs)]
     return data, chosen.get('property'), chosen.get('description')
 
 
@@ -640,7 +653,9 @@ def judge(target, run):
         if re.search(r'VF_REPLAY FAILED ensures#%d\b' % target[1], so):
             return True, 'the real code, compiled by gcc from the working tree, violates ensures#%d on the recorded input' % target[1]
         if 'ERROR: AddressSanitizer' in se or 'runtime error:' in se:
-            return True, 'the real code hits a sanitizer error on the recorded input before reaching the postcondition'
+            # not a confirmation of THIS clause: with replaced (abstracted) callees the verifier's input need not be
+            # realisable by the real callees (e.g. factor objects that only satisfy a protocol contract)
+            return False, 'native run stopped in a sanitizer report before the clause could be evaluated (input not realisable with the real callees?)'
         return False, 'native run did not fail this clause'
     if 'ERROR: AddressSanitizer' in se or 'runtime error:' in se or rc in (124, -11, 139):
         return True, 'sanitizer / crash on the recorded input'
@@ -689,7 +704,8 @@ def try_witness(prop, spec, r, f, outdir_base, base, root=None):
                     pass
             open(os.path.join(outdir, 'vf_native_decls.h'), 'w').write('/* prototypes of trusted externals used by the contract */\n' + '\n'.join(ext_decls) + '\n')
             open(os.path.join(outdir, 'vf_replay_data.c'), 'w').write(
-                'const unsigned char vf_replay_data[] = {%s};\nconst unsigned vf_replay_len = %d;\n' % (','.join(str(x) for x in data), len(data)))
+                '/* input of the verifier\'s counterexample: (slot << 24 | offset << 8 | byte) */\n'
+                'const unsigned long vf_replay_recs[] = {%s};\nconst unsigned vf_replay_len = %d;\n' % (','.join('0x%xUL' % x for x in data), len(data)))
             meta = dict(unit=spec['unit'], variant=variant, tier=tier, target=[target[0], target[1] if target[0] == 'ens' else f.get('name')],
                         wraps=wraps, cex_property=pname, input_bytes=len(data), unwind=unwind,
                         clause=ens_texts[target[1]] if target[0] == 'ens' else f.get('description'))
